@@ -918,8 +918,15 @@ var kinds = []string{"node", "ns", "svc", "pod", "slice"}
 // finalLines returns the upsert lines of the live objects, kinds in the given order, keys sorted.
 func (c *caseRun) finalLines(order []string) [][]string {
 	var out [][]string
+	keys := sortedKeys(c.last)
+	if has(order, "rev") {
+		// the Add events of one kind in the opposite order (the list order of an informer is not specified)
+		for i, j := 0, len(keys)-1; i < j; i, j = i+1, j-1 {
+			keys[i], keys[j] = keys[j], keys[i]
+		}
+	}
 	for _, kd := range order {
-		for _, k := range sortedKeys(c.last) {
+		for _, k := range keys {
 			if strings.HasPrefix(k, kd+"/") {
 				out = append(out, c.last[k])
 			}
@@ -942,6 +949,9 @@ func parseOrder(tok string) []string {
 		if !seen[k] {
 			out = append(out, k)
 		}
+	}
+	if has(o, "rev") {
+		out = append(out, "rev")
 	}
 	return out
 }
@@ -1110,7 +1120,7 @@ func execOps(stream, in, outp string) {
 var coldOrders = [][]string{
 	{"node", "ns", "svc", "pod", "slice"},
 	{"slice", "pod", "svc", "ns", "node"},
-	{"pod", "slice", "node", "svc", "ns"},
+	{"pod", "slice", "node", "svc", "ns", "rev"},
 }
 
 func permutations(l []string) [][]string {
